@@ -15,10 +15,10 @@ std::string sqf::runtime::diagnostics::stacktrace::to_string() const
     {
         sstream <<
             "<" << std::setw(3) << ++i << " of " << frames.size() << "> " <<
-            LogLocationInfo((*frame.current())->diag_info()).format() <<
+            LogLocationInfo(frame.diag_info_from_position()).format() <<
             "[" << (frame.globals_value_scope()->scope_name().empty() ? "SCOPENAME-NA" : frame.globals_value_scope()->scope_name()) << "] " <<
             "[" << (frame.scope_name().empty() ? "SCOPENAME-EMPTY" : frame.scope_name()) << "]" << std::endl <<
-            (*frame.current())->diag_info().code_segment << std::endl;
+            frame.diag_info_from_position().code_segment << std::endl;
     }
     return sstream.str();
 }
